@@ -414,6 +414,56 @@ fn atomics_skewed(env: &Env) {
     at!(usize, "usize");
 }
 
+/// The REQUESTED ORDERING of atomic store/load: store-buffering litmus on real threads. Each of two
+/// threads stores 1 to its own guest word with SeqCst and then loads the other's with SeqCst; under
+/// sequential consistency at least one of them sees the other's store. (On x86-64 a SeqCst store
+/// is an `xchg` / `mov`+`mfence`; a store silently weakened to Release is a plain `mov`, and both
+/// loads can then return 0.)
+fn ordering_litmus(rounds: u64) {
+    use std::sync::atomic::{AtomicU64 as A64, Ordering as O};
+    let gm = std::sync::Arc::new(GuestMemoryMmap::<()>::from_ranges(&[(GuestAddress(0x8000), 0x2000)]).unwrap());
+    let (xa, ya) = (GuestAddress(0x8000 + 64), GuestAddress(0x8000 + 0x1000 + 128));
+    let phase = std::sync::Arc::new(A64::new(0));
+    let r2 = std::sync::Arc::new(A64::new(9));
+    let both_zero = std::sync::Arc::new(A64::new(0));
+    let (g2, p2, rr2) = (gm.clone(), phase.clone(), r2.clone());
+    let h = std::thread::spawn(move || {
+        for r in 1..=rounds {
+            while p2.load(O::Acquire) != 2 * r - 1 {
+                std::hint::spin_loop();
+            }
+            let _ = g2.store::<u32>(1, ya, O::SeqCst);
+            let v = g2.load::<u32>(xa, O::SeqCst).unwrap_or(7);
+            rr2.store(v as u64, O::Release);
+            p2.store(2 * r, O::Release);
+        }
+    });
+    let mut first = 0u64;
+    for r in 1..=rounds {
+        let _ = gm.store::<u32>(0, xa, O::SeqCst);
+        let _ = gm.store::<u32>(0, ya, O::SeqCst);
+        phase.store(2 * r - 1, O::Release);
+        let _ = gm.store::<u32>(1, xa, O::SeqCst);
+        let r1 = gm.load::<u32>(ya, O::SeqCst).unwrap_or(7);
+        while phase.load(O::Acquire) != 2 * r {
+            std::hint::spin_loop();
+        }
+        if r1 == 0 && r2.load(O::Acquire) == 0 {
+            if both_zero.fetch_add(1, O::Relaxed) == 0 {
+                first = r;
+            }
+        }
+    }
+    let _ = h.join();
+    let n = both_zero.load(O::Relaxed);
+    if n > 0 {
+        v("atomic-ordering/SeqCst-store-then-load-both-threads-saw-0", jobj! {"rounds" => rounds, "forbidden_outcomes" => n, "first_round" => first});
+    }
+    out::count("ordering_litmus_rounds", rounds as i128);
+    out::key("atomic|ordering-litmus|store-buffering|SeqCst", true);
+    out::eval(rounds);
+}
+
 #[repr(align(8))]
 struct A8([u8; 8]);
 fn pad8(b: &[u8]) -> [u8; 8] {
@@ -648,6 +698,7 @@ pub fn run(args: &Args) {
     }
     if !cfg!(miri) {
         tearing(args.u64("tear", 200_000));
+        ordering_litmus(args.u64("sb", 1_500_000));
     }
     out::sample(jobj! {"transfer" => "guest.write_obj<u32> at guest address with host address % 8 == 4", "trace" => "[Single{width:4}]", "verdict" => "judged class: exactly one 4-byte access"});
     out::sample(jobj! {"transfer" => "slice.write of 7 bytes, guest % 8 == 1, local % 8 == 3", "trace" => "seven Single{width:1}", "verdict" => "tiling only (not in the judged class)"});
